@@ -52,7 +52,18 @@ out+=['',f'{det} of {n} seeded changes are caught by the check of the property t
  '`findChangeLogKeys` (iterator-owned buffers), the EGDM shim split rule, `updateDataset` namespace persistence,',
  '`NewTokenProviders` lower-case keys, `NewAuthorizer`, `ExecuteTransaction` counters (`loop N exit` anchors),',
  '`NewBackupManager` cursor, `Store.Delete`. Two older seeds (C04-m1, C04-m3) were ported onto the tree after fix b295dc0',
- '(`patch.orig.diff` keeps the original).','',
+ '(`patch.orig.diff` keeps the original); three more (C07-m2, C07-m4, C20-m5) onto the tree after fix 21e81cb.','',
+ 'Wave 11 (seeds m7/m8, C01/C03 m9/m10; the agents were told to look two layers away from the central functions): 21 of its',
+ '40 changes were first missed, most of them because the obligation that fails lives in the check of ANOTHER property',
+ '(compaction obligations vs. the reader properties C01/C02/C03/C18, delete ordering vs. C04, id commit vs. C13, dependency',
+ 'tokens vs. C04, the shared parser vs. C01): those obligations are now attributed to every property that relies on them, and',
+ 'the property package lists were widened accordingly. Genuinely new obligations: reverse feed closes without a token only at',
+ 'position 0 and never hands out position 0; jobs never run on the goroutine that emitted the dataset event (`$onEmitter`);',
+ 'expired lease leaves no lease behind (`RefreshFullSyncLease$1`); HTTP sink delivery means status 200, one namespace context',
+ 'per batch; a rejected batch fails the full sync; proxy source read arguments; external-transform entities keep their deleted',
+ 'flag; dependency errors reach the pipeline unchanged; record serialised with the new namespace list in place; the outgoing',
+ 'scan\'s pass predicate made a function of the key alone (an early `continue` of a passing key now fails); repeated-reference',
+ 'test against the remembered version; source full-sync mode entered once; `AsEntity` recover guard.','',
  'Hand-made must-fail corpus: `selftest/mutants/*.patch` ('+str(len(glob.glob('/verif/selftest/mutants/*.patch')))+' mutants, each with the obligation it must fail in its `.json`),',
  'run together with the seeds by `selftest/run.sh`.','']
 txt='\n'.join(out)
